@@ -9,9 +9,15 @@
    own log, its whole log included, are such a pair: "a node is at most one configuration change
    behind its own log".  Follows from RaftCCOne.cc_at_most_one_uncommitted. *)
 Require Import List Arith Bool Lia.
-Require Import Raft.Quorum Raft.QuorumProofs Raft.RaftModel Raft.RaftSys Raft.RaftInvBase
+Require Import Raft.Quorum Raft.QuorumProofs Raft.RaftModel Raft.RaftSys Raft.RaftLog Raft.RaftInvBase
                Raft.RaftCC Raft.RaftCCQuorum Raft.RaftCCRefine Raft.RaftCCSafety Raft.RaftCCInv Raft.RaftCCOne.
 Import ListNotations.
+
+Lemma skipn_add : forall (A : Type) c a (l : list A), skipn a (skipn c l) = skipn (c + a) l.
+Proof.
+  intros A c. induction c as [|c IH]; intros a l; [reflexivity|].
+  destruct l as [|x l]; [cbn; rewrite skipn_nil; reflexivity|]. cbn. apply IH.
+Qed.
 
 Definition cpair (c : conf) : list nat * list nat := (c_in c, c_out c).
 
@@ -103,6 +109,45 @@ Section Chain.
     rewrite E. apply chain_adjacent.
     pose proof (nconf_firstn_le (j - c) (skipn c L)). pose proof (cc_ok_nconf L c H). lia.
   Qed.
+
+  (* any two prefixes at or beyond c of a log that holds at most one change above c *)
+  Lemma cc_ok_adjacent2 : forall L c j1 j2, cc_ok L c -> c <= j1 -> j1 <= j2 ->
+    inter_family [cpair (cfg_of boot (firstn j1 L)); cpair (cfg_of boot (firstn j2 L))].
+  Proof.
+    intros L c j1 j2 H H1 H2.
+    assert (E : firstn j2 L = firstn j1 L ++ firstn (j2 - j1) (skipn j1 L)) by (apply firstn_seg; exact H2).
+    rewrite E. apply chain_adjacent.
+    pose proof (nconf_firstn_le (j2 - j1) (skipn j1 L)). pose proof (cc_ok_nconf L c H).
+    assert (Hs : nconf (skipn j1 L) <= nconf (skipn c L)).
+    { rewrite <- (firstn_skipn (j1 - c) (skipn c L)). rewrite nconf_app. rewrite skipn_add.
+      replace (c + (j1 - c)) with j1 by lia. lia. }
+    lia.
+  Qed.
+
+  (* the distance analysis of the chain argument, at the level of one log: two prefixes of a log
+     are one change apart at most (their quorums intersect), or the log holds two
+     configuration-change entries between them *)
+  Lemma prefix_distance : forall L c c3, c <= c3 ->
+    inter_family [cpair (cfg_of boot (firstn c L)); cpair (cfg_of boot (firstn c3 L))] \/
+    exists j1 j2 e1 e2, c <= j1 /\ j1 < j2 /\ j2 < c3 /\
+      nth_error L j1 = Some e1 /\ nth_error L j2 = Some e2 /\ isconf (snd e1) = true /\ isconf (snd e2) = true.
+  Proof.
+    intros L c c3 Hc.
+    assert (E : firstn c3 L = firstn c L ++ firstn (c3 - c) (skipn c L)) by (apply firstn_seg; exact Hc).
+    destruct (le_lt_dec (nconf (firstn (c3 - c) (skipn c L))) 1) as [Hle|Hgt].
+    - left. rewrite E. apply chain_adjacent. exact Hle.
+    - right. destruct (nconf_two_pos _ Hgt) as (a & b & e & e' & Hlt & Ha & Hb & He & He').
+      assert (Hbl : b < c3 - c).
+      { assert (b < length (firstn (c3 - c) (skipn c L))) by (apply nth_error_Some; congruence).
+        rewrite firstn_length in H. lia. }
+      rewrite nth_error_firstn_lt in Ha, Hb by lia. rewrite nth_error_skipn_plus in Ha, Hb.
+      exists (c + a), (c + b), e, e'. repeat split; try assumption; lia.
+  Qed.
+
+  (* hence: against a log that holds at most one change above c, a prefix beyond c is adjacent *)
+  Corollary prefix_distance_cc_ok : forall L c c3, c <= c3 -> cc_ok L c ->
+    inter_family [cpair (cfg_of boot (firstn c L)); cpair (cfg_of boot (firstn c3 L))].
+  Proof. intros L c c3 Hc H. apply (cc_ok_adjacent L c c3 H Hc). Qed.
 End Chain.
 
 Section Behind.
@@ -118,6 +163,17 @@ Section Behind.
                     cpair (cfg_of boot (firstn j (n_log (fst (cx_nodes x y)))))].
   Proof.
     intros x Hx y j Hj. unfold node_cfg. apply cc_ok_adjacent; [exact Hboot| |exact Hj].
+    exact (proj2 (cc_one_sim F HF boot page1 x Hx) y).
+  Qed.
+
+  (* all configurations "active" at a node — the one it decides with and those of every longer
+     prefix of its log — pairwise intersect *)
+  Theorem node_active_family : forall x, cxreachableF F boot page1 x ->
+    forall y j1 j2, n_commit (fst (cx_nodes x y)) <= j1 -> j1 <= j2 ->
+      inter_family [cpair (cfg_of boot (firstn j1 (n_log (fst (cx_nodes x y)))));
+                    cpair (cfg_of boot (firstn j2 (n_log (fst (cx_nodes x y)))))].
+  Proof.
+    intros x Hx y j1 j2 H1 H2. apply (cc_ok_adjacent2 boot Hboot _ (n_commit (fst (cx_nodes x y)))); try assumption.
     exact (proj2 (cc_one_sim F HF boot page1 x Hx) y).
   Qed.
 End Behind.
